@@ -42,6 +42,24 @@ Definition as_sequence (v : pyval) : option (list pyval) :=
 
 Definition is_str_key (kv : pyval * pyval) : bool := match fst kv with PStr _ => true | _ => false end.
 
+(* hint = datum["-type"] if isinstance(datum, dict) and "-type" in datum else None   (`hint is not None` is the test) *)
+Definition type_hint (v : pyval) : option pyval :=
+  match v with
+  | PDict kv => match dict_get kv (s2b "-type") with Some PNone => None | x => x end
+  | _ => None
+  end.
+
+(* with a hint only the record branch of that name is considered (a by-name reference is resolved first) *)
+Definition hint_pass (e : env) (v : pyval) (c : schema) : bool :=
+  match type_hint v with
+  | None => true
+  | Some h =>
+      match (match strip c with SRef n => match lookup e n with Some d => strip d | None => strip c end | d => d end) with
+      | SRecord n _ _ => match h with PStr t => bytes_eqb t n | _ => false end
+      | _ => false
+      end
+  end.
+
 Section Loops.
   Variable rec : schema -> option pyval -> res bool.
   (* all(_validate(d, s) for d in datum) with short circuit *)
@@ -58,10 +76,12 @@ Section Loops.
         let* b := rec (ftype f) v in
         if b then all_fields kv fs else Ok false
     end.
-  Fixpoint any_branch (v : pyval) (bs : list schema) : res bool :=
+  (* [pass]: a "-type" entry of the datum restricts the candidates to the record branch of that name *)
+  Fixpoint any_branch (pass : schema -> bool) (v : pyval) (bs : list schema) : res bool :=
     match bs with
     | [] => Ok false
-    | s :: bs => let* b := rec s (Some v) in if b then Ok true else any_branch v bs
+    | s :: bs => if negb (pass s) then any_branch pass v bs
+                 else let* b := rec s (Some v) in if b then Ok true else any_branch pass v bs
     end.
   (* tuple notation: first candidate whose name equals the given name (same naming rule as write_union) *)
   Fixpoint hinted (name : pyval) (v : pyval) (bs : list schema) : res bool :=
@@ -115,12 +135,12 @@ Fixpoint validate (f : nat) (o : wopts) (e : env) (s : schema) (ov : option pyva
       | SUnion bs =>
           match v with
           | PTuple l =>
-              if disable_tuple o then any_branch (validate f o e) v bs
+              if disable_tuple o then any_branch (validate f o e) (hint_pass e v) v bs
               else match l with
                    | [name; v'] => hinted (validate f o e) name v' bs
                    | _ => Ok false                               (* len(datum) != 2: not a (name, value) hint *)
                    end
-          | _ => any_branch (validate f o e) v bs
+          | _ => any_branch (validate f o e) (hint_pass e v) v bs
           end
       | SRef n => match lookup e n with Some s' => validate f o e s' (Some v) | None => Err end
       | SAnnot _ s' => validate f o e s' (Some v)
